@@ -471,6 +471,77 @@ def rule_copy_fresh(ctx: Ctx) -> RuleResult:
     return rr
 
 
+def rule_gridflow_latch(ctx: Ctx) -> RuleResult:
+    """GridFlow builds a Pile of Columns rows; within a row the Columns focus defaults to the first selectable cell but
+    must end up on the GridFlow's own focus cell when that cell is in the row.  The default is guarded by a latch
+    (`not column_focused`): every store of the row's focus_position has to set the latch, otherwise a later selectable
+    cell takes the row focus back from the GridFlow focus cell."""
+    p = ctx.p
+    rr = RuleResult("GUARD", "C08.14", "GridFlow.generate_display_widget: every store of a row's focus_position sets the latch the default-focus test reads", floor=1)
+    fi = p.func("urwid.widget.grid_flow.GridFlow.generate_display_widget")
+    # the latch: a name tested as `not <name>` together with a selectable() call
+    latch = None
+    for n in fi.own_nodes():
+        if isinstance(n, ast.If):
+            for c in ast.walk(n.test):
+                if isinstance(c, ast.UnaryOp) and isinstance(c.op, ast.Not) and isinstance(c.operand, ast.Name) and any(isinstance(x, ast.Call) and callee_name(x) == "selectable" for x in ast.walk(n.test)):
+                    latch = c.operand.id
+    if latch is None:
+        raise AnalysisError("GridFlow.generate_display_widget: the default-focus latch (`not <flag> and w.selectable()`) was not found")
+    # blocks
+    n_st = 0
+    for owner in ast.walk(fi.node):
+        for fld in ("body", "orelse"):
+            blk = getattr(owner, fld, None)
+            if not isinstance(blk, list):
+                continue
+            for st in blk:
+                if isinstance(st, ast.Assign) and any(isinstance(t, ast.Attribute) and t.attr == "focus_position" and isinstance(t.value, ast.Name) for t in st.targets):
+                    recv = next(t.value.id for t in st.targets if isinstance(t, ast.Attribute) and t.attr == "focus_position" and isinstance(t.value, ast.Name))
+                    # only the row (Columns) receiver: the one whose store is guarded by the latch somewhere
+                    sets = any(isinstance(x, ast.Assign) and any(isinstance(t, ast.Name) and t.id == latch for t in x.targets) and isinstance(x.value, ast.Constant) and x.value.value is True for x in blk)
+                    guarded_somewhere = any(isinstance(x, ast.If) and latch in ast.unparse(x.test) and any(isinstance(y, ast.Assign) and any(isinstance(t, ast.Attribute) and t.attr == "focus_position" and isinstance(t.value, ast.Name) and t.value.id == recv for t in y.targets) for y in ast.walk(x)) for x in ast.walk(fi.node))
+                    if not guarded_somewhere:
+                        continue
+                    n_st += 1
+                    rr.inst(f"{norm(st, 50)}", True, {"store": norm(st, 60), "sets_latch": sets})
+                    if not sets:
+                        rr.add(finding("GUARD", fi, st, f"`{norm(st, 60)}` moves the row's focus without setting `{latch}`: the next selectable cell of the row passes the `not {latch}` test and takes the row focus, so the display widget focuses (renders in focus, offers keys to) a cell that is not GridFlow.focus", construct=f"row focus stored without setting {latch}"))
+    if not n_st:
+        raise AnalysisError("GridFlow.generate_display_widget: no store of the row's focus_position found")
+    return rr
+
+
+def rule_index_clamp(ctx: Ctx) -> RuleResult:
+    """`if i <op> len(s): i = ... len(s) - 1` pulls an index back into range; valid indexes are 0..len-1, so the
+    test has to fire for i == len(s) (`>=`).  With `>` an index one past the end survives: a non-empty walker reports
+    no focus widget and focus_position raises."""
+    p = ctx.p
+    rr = RuleResult("BOUND", "C08.15", "an index is clamped to len - 1 under `index >= len` (not `>`)", floor=1)
+    for fi in p.functions.values():
+        if not fi.module.name.startswith("urwid.widget"):
+            continue
+        for n in fi.own_nodes():
+            if not (isinstance(n, ast.If) and isinstance(n.test, ast.Compare) and len(n.test.ops) == 1):
+                continue
+            l, r, op = n.test.left, n.test.comparators[0], n.test.ops[0]
+            off = 0
+            if isinstance(r, ast.BinOp) and isinstance(r.op, ast.Sub) and isinstance(r.right, ast.Constant) and isinstance(r.right.value, int):
+                off, r = -r.right.value, r.left
+            if not (isinstance(r, ast.Call) and isinstance(r.func, ast.Name) and r.func.id == "len"):
+                continue
+            lhs, L = ast.unparse(l), ast.unparse(r)
+            clamp = [st for st in n.body if isinstance(st, ast.Assign) and ast.unparse(st.targets[0]) == lhs and f"{L} - 1" in ast.unparse(st.value)]
+            if not clamp:
+                continue
+            # smallest index value for which the test fires, relative to len
+            first = off + (1 if isinstance(op, ast.Gt) else 0 if isinstance(op, ast.GtE) else None) if isinstance(op, (ast.Gt, ast.GtE)) else None
+            rr.inst(f"{short(fi)}:{norm(n.test, 40)}", True, {"function": short(fi), "test": norm(n.test, 50), "clamp": norm(clamp[0], 50)})
+            if first != 0:
+                rr.add(finding("BOUND", fi, n, f"`{norm(n.test, 50)}` does not fire for {lhs} == {L}, so `{norm(clamp[0], 50)}` leaves an index one past the end in place: after the list shrank to exactly the old focus index a non-empty walker has no focus widget", construct=f"index clamp test {norm(n.test, 50)}"))
+    return rr
+
+
 def run(ctx: Ctx):
     p = ctx.p
     from ..rules import optcall
@@ -494,6 +565,8 @@ def run(ctx: Ctx):
         rule_empty_guard(ctx),
         rule_command_else(ctx),
         rule_copy_fresh(ctx),
+        rule_gridflow_latch(ctx),
+        rule_index_clamp(ctx),
         optcall.run_optcall(p, "C08.13", ("urwid.widget",), floor=35),
     ]
 
@@ -503,6 +576,9 @@ _C = "urwid/widget/columns.py"
 _G = "urwid/widget/grid_flow.py"
 _F = "urwid/widget/frame.py"
 MUTANTS = [
+    Mut("walker-focus-clamp-off-by-one", "urwid/widget/listbox.py", "SimpleListWalker._modified", "if self.focus >= len(self):", "if self.focus > len(self):", "BOUND|widget.listbox.SimpleListWalker._modified"),
+    Mut("twin-walker-focus-clamp-respelled", "urwid/widget/listbox.py", "SimpleListWalker._modified", "if self.focus >= len(self):", "if self.focus > len(self) - 1:", twin=True),
+    Mut("gridflow-focus-cell-does-not-latch", "urwid/widget/grid_flow.py", "GridFlow.generate_display_widget", "            if (i == self.focus_position) or (not column_focused and w.selectable()):\n                c.focus_position = len(c.contents) - 1\n                column_focused = True\n            if i == self.focus_position:\n", "            if not column_focused and w.selectable():\n                c.focus_position = len(c.contents) - 1\n                column_focused = True\n            if i == self.focus_position:\n                c.focus_position = len(c.contents) - 1\n", "GUARD|widget.grid_flow.GridFlow.generate_display_widget"),
     Mut("pile-offers-key-only-to-selectable-focus", "urwid/widget/pile.py", "Pile.keypress", "        if self.selectable():\n            key = self.focus.keypress(size_args[i], key)", "        if self.focus.selectable():\n            key = self.focus.keypress(size_args[i], key)", "EXHAUST|widget.pile.Pile.keypress"),
     Mut("twin-pile-restriction-hoisted", "urwid/widget/pile.py", "Pile.keypress", "        if self.selectable():\n            key = self.focus.keypress(size_args[i], key)\n            if self._command_map[key] not in {Command.UP, Command.DOWN}:\n                return key\n", "        if self.focus.selectable():\n            key = self.focus.keypress(size_args[i], key)\n        if self._command_map[key] not in {Command.UP, Command.DOWN}:\n            return key\n", twin=True),
     Mut("command-map-copy-shares-dict", "urwid/command_map.py", "CommandMap.copy", "c._command = dict(self._command)", "c.__dict__.update(self.__dict__)", "FRESH|command_map.CommandMap.copy"),
